@@ -128,6 +128,11 @@ class TorchNNPureFunction(PureFunction):
             for pname, p in mod._parameters.items():
                 if p is not None:
                     named_params.append(((modname + "." if modname else "") + pname, p))
+            # parameters that are temporarily replaced by plain tensors (a substitution
+            # through another view of this module is active, e.g. a functional called
+            # inside the function of another functional) are not registered at the moment
+            for pname in mod.__dict__.get("_xitorch_replaced_params", ()):
+                named_params.append(((modname + "." if modname else "") + pname, mod.__dict__[pname]))
         if len(named_params) == 0:
             paramnames: List[str] = []
             obj_params: List[Union[torch.Tensor, torch.nn.Parameter]] = []
@@ -145,6 +150,17 @@ class TorchNNPureFunction(PureFunction):
         for (name, param) in zip(self.names, objparams):
             del_attr(self.obj, name)  # delete required in case the param is not a torch.nn.Parameter
             set_attr(self.obj, name, param)
+            # remember which names hold a plain tensor in place of a registered parameter
+            ownername, _, pname = name.rpartition(".")
+            owner = get_attr(self.obj, ownername) if ownername else self.obj
+            replaced = owner.__dict__.setdefault("_xitorch_replaced_params", [])
+            if isinstance(param, torch.nn.Parameter):
+                if pname in replaced:
+                    replaced.remove(pname)
+            elif pname not in replaced:
+                replaced.append(pname)
+            if len(replaced) == 0:
+                del owner.__dict__["_xitorch_replaced_params"]
 
 class SingleSiblingPureFunction(PureFunction):
     def __init__(self, fcn: Callable, fcntocall: Callable):
